@@ -370,6 +370,22 @@ theorem C13_withvalue_setups {V : Type} [DecidableEq V] (cond : V → Bool) (val
     wvSetups (wvRun cond none vals).2 = vals.filter cond :=
   wvRun_setups cond none vals
 
+/-- In the protocol: at quiescence a `WithValue` / `WithNonEmptyValue` built on a subscription that was never
+unsubscribed (and has been handed its initial note — `WithValue` always asks for it) is set up for exactly the
+current value of the variable if that value satisfies the condition, and for nothing otherwise — under
+every schedule of writers. -/
+theorem C13_withvalue_in_protocol {V : Type} [DecidableEq V] (zero init : V) (cond : V → Bool)
+    {cfg : Cfg (Sh V (V × V)) (Th (varObj V zero init).WOp (V × V))} (h : Reachable (varObj V zero init) cfg)
+    (hq : Quiescent cfg.2) {c : Nat} (hc : c ∈ cfg.1.listed) (hne : notes (cfg.1.cbs c).evs ≠ []) :
+    (wvRun cond none ((notes (cfg.1.cbs c).evs).map (·.2))).1 = if cond cfg.1.st then some cfg.1.st else none := by
+  have hl := C13_last_is_final zero init h hq hc
+  rw [wvRun_state, List.getLast?_map]
+  cases hg : (notes (cfg.1.cbs c).evs).getLast? with
+  | none => exact absurd (List.getLast?_eq_none_iff.mp hg) hne
+  | some x =>
+    simp only [lastNew, hg, Option.map_some, Option.getD_some] at hl
+    simp [hl]
+
 /-- `OnUpdateWithContext`: when a callback starts, every `withinContext` subscription of the previous
 callback has been torn down (once, in registration order); the unsubscribe function tears down the
 last ones; the user callback sees exactly the notes of the stream. -/
